@@ -471,14 +471,19 @@ impl<'a> Lexer<'a> {
         Some(Token::new(TokenKind::Group, c.as_ref(), self.group, self.line, start, self.pos))
     }
 
-    fn get_numeric(&mut self) -> Option<Token> {
-        if !self.curr_char().is_ascii_digit() { return None }
+    fn get_numeric(&mut self) -> Result<Option<Token>, RuleSyntaxError> {
+        if !self.curr_char().is_ascii_digit() { return Ok(None) }
 
         let start = self.pos;
 
         let buffer = self.chop_while(|x| x.is_ascii_digit());
 
-        Some(Token::new(TokenKind::Number, buffer.as_str(), self.group, self.line, start, self.pos))
+        let token = Token::new(TokenKind::Number, buffer.as_str(), self.group, self.line, start, self.pos);
+        // variable numbers and repetition counts are read into a usize later on: nine digits fit on every target
+        if buffer.len() > 9 {
+            return Err(RuleSyntaxError::NumberTooBig(token))
+        }
+        Ok(Some(token))
     }
 
     fn get_feature(&mut self) -> Result<Option<Token>, RuleSyntaxError> {
@@ -732,7 +737,7 @@ impl<'a> Lexer<'a> {
         
         self.trim_whitespace();
 
-        match self.get_numeric() {
+        match self.get_numeric()? {
             Some(num) => Ok(Some(Token::new(tkn_kind, &num.value, self.group, self.line, start, self.pos))),
             _ => Err(RuleSyntaxError::ExpectedNumber(self.curr_char(), self.group, self.line, self.pos))
 
@@ -840,7 +845,7 @@ impl<'a> Lexer<'a> {
         if let Some(com_token) = self.get_comment()?      { return Ok(com_token) }
         if let Some(bkt_token) = self.get_bracket()?      { return Ok(bkt_token) }
         if let Some(pmt_token) = self.get_primative()     { return Ok(pmt_token) }
-        if let Some(num_token) = self.get_numeric()       { return Ok(num_token) }
+        if let Some(num_token) = self.get_numeric()?      { return Ok(num_token) }
         if let Some(ftr_token) = self.get_feature()?      { return Ok(ftr_token) }
         if let Some(spc_token) = self.get_special_char()? { return Ok(spc_token) }
         if let Some(ipa_token) = self.get_ipa()           { return Ok(ipa_token) }
